@@ -36,8 +36,15 @@ func genPersistPlan(seed uint64, thorough bool) *Plan {
 	var items []Item
 	add := func(a ...string) { items = append(items, cmdItem(a...)) }
 	saveNow := func() {
-		// let the periodic saver run and finish
-		items = append(items, Item{Op: "adv", N: int64(1100 * time.Millisecond)}, Item{Op: "await-idle"})
+		// let the periodic saver run and finish ...
+		items = append(items, Item{Op: "adv", N: int64(1100 * time.Millisecond)})
+		if g.chance(4) {
+			// ... or not finish: the next commands arrive while the save is under
+			// way, and what they change must be in this snapshot or mark the
+			// database for the next one
+			return
+		}
+		items = append(items, Item{Op: "await-idle"})
 	}
 	phases := 1 + g.r.IntN(4)
 	for ph := 0; ph < phases; ph++ {
@@ -121,8 +128,22 @@ func genPersistPlan(seed uint64, thorough bool) *Plan {
 	if g.chance(3) {
 		// the only write since the last completed save is a single in-place
 		// change or a deletion of one kind: the shutdown save must still happen
+		lw := g.r.IntN(12)
+		if lw >= 8 {
+			add("HSET", "lw", "f0", "old", "f1", "1")
+			add("SET", "lws", "abc")
+		}
 		saveNow()
-		switch g.r.IntN(8) {
+		switch lw {
+		case 8:
+			// (a write that replaces a value and adds nothing)
+			add("HSET", "lw", "f0", g.val())
+		case 9:
+			add("HINCRBYFLOAT", "lw", "f1", "1.5")
+		case 10:
+			add(g.pick("SETRANGE", "SETBIT"), "lws", "1", g.pick("1", "0"))
+		case 11:
+			add("HINCRBY", "lw", "f1", "2")
 		case 0, 1, 2:
 			add(past()...)
 		case 3:
